@@ -10,11 +10,11 @@ import (
 	"context"
 	"errors"
 	"fmt"
-	"strings"
 	"math/rand"
 	"net"
 	"os"
 	"strconv"
+	"strings"
 	"sync"
 	"sync/atomic"
 	"testing"
@@ -37,17 +37,17 @@ type cacheCase struct {
 
 // cacheZone is the upstream: per key a generation and a TTL list per generation.
 type cacheZone struct {
-	mu      sync.Mutex
-	typ     int // the record type under test
-	gen     map[string]int
-	ttls    map[string][][]int
-	up      bool
-	failSrv bool // failure as a DNS rcode instead of HTTP 400
-	failRc  int  // the rcode (2 SERVFAIL, 9 NOTAUTH ...)
+	mu        sync.Mutex
+	typ       int // the record type under test
+	gen       map[string]int
+	ttls      map[string][][]int
+	up        bool
+	failSrv   bool // failure as a DNS rcode instead of HTTP 400
+	failRc    int  // the rcode (2 SERVFAIL, 9 NOTAUTH ...)
 	cnameOnly bool
-	queries []Ev
-	log     func(Ev)
-	clock   func() int
+	queries   []Ev
+	log       func(Ev)
+	clock     func() int
 }
 
 func (z *cacheZone) answer(id int, name string, qtype int) ([]byte, int) {
